@@ -5,7 +5,7 @@ CONSTANTS
   Spawned = {"h1"}
   Closers = {"k1"}
   MaxFail = 1
-  MaxKill = 0
+  MaxKill = 1
   Eager = TRUE
   CloseErr = FALSE
   Defect_LateCloseUnderLock = FALSE
